@@ -212,7 +212,7 @@ class MergeRun:
         self.n = len(case['items'])
 
     def on_wake(self, done, pending):
-        ids = sorted(self.reg.get(t, -1) for t in done)
+        ids = sorted(self.reg.get(t, 4999) for t in done)   # 4999: a task the harness does not know
         ord_ = list(range(self.n))
         self.rng.shuffle(ord_)
         self.log.append(('wake', ids, ord_))
@@ -952,6 +952,7 @@ def jlog(log):
 def _new_loop():
     loop = asyncio.new_event_loop()
     asyncio.set_event_loop(loop)
+    loop.set_exception_handler(lambda *a: None)    # dangling tasks of a broken implementation: not our output
     return loop
 
 
